@@ -370,9 +370,13 @@ def c06(ctx, rep):
     v6 = _ipv6(ctx, rep, "C06", thorough)
     _pass_separation(ctx, rep, "C06", v4, v6)
     _plumbing(ctx, rep, "C06")
+    from .ipmodel import IpModel
+    IpModel(ctx).check_subclasses(rep, "C06")  # the replacement text is printed by the family's own address type
     # "every address ... in a line" — both passes run on every line, unconditionally once enabled
     from .checks_pipe import line_loop_rules
     line_loop_rules(ctx, rep, "C06")
+    from .checks_pipe import stream_open_rule
+    stream_open_rule(ctx, rep, "C06")
     from .checks_pipe import independent_wiring
     independent_wiring(ctx, rep, "C06", only=("anonymizer4", "anonymizer6"))
 
@@ -432,6 +436,8 @@ def c11(ctx, rep):
     stage_state_rule(ctx, rep, "C11", ["AsNumberAnonymizer"])
     from .checks_pipe import independent_wiring
     independent_wiring(ctx, rep, "C11", only=("anonymizer_as_num",))
+    from .checks_ip import option_spec_rule
+    option_spec_rule(ctx, rep, "C11", only=("--as-numbers",))
     loc_cls = "%s:%d" % (cls.module.relpath, cls.node.lineno)
     # 1. block table
     try:
